@@ -55,6 +55,18 @@ func NewServerHandler(user *user.User, catLimiter,
 	return &h
 }
 
+// aggregateReaderStarted lets a running mapreduce aggregation know that a read
+// command is going to feed it, so that it doesn't finish before that command
+// had the chance to queue its lines. Returns the function to call when done.
+func (h *ServerHandler) aggregateReaderStarted() func() {
+	aggregate := h.aggregate
+	if aggregate == nil {
+		return func() {}
+	}
+	aggregate.ReaderStarted()
+	return aggregate.ReaderDone
+}
+
 func (h *ServerHandler) handleUserCommand(ctx context.Context, ltx lcontext.LContext,
 	argc int, args []string, commandName string) {
 
@@ -70,14 +82,18 @@ func (h *ServerHandler) handleUserCommand(ctx context.Context, ltx lcontext.LCon
 	switch commandName {
 	case "grep", "cat":
 		command := newReadCommand(h, omode.CatClient)
+		readerDone := h.aggregateReaderStarted()
 		go func() {
 			command.Start(ctx, ltx, argc, args, 1)
+			readerDone()
 			commandFinished()
 		}()
 	case "tail":
 		command := newReadCommand(h, omode.TailClient)
+		readerDone := h.aggregateReaderStarted()
 		go func() {
 			command.Start(ctx, ltx, argc, args, 10)
+			readerDone()
 			commandFinished()
 		}()
 	case "map":
